@@ -76,6 +76,40 @@ def check(rep, tier):
             rec = dict(label="history %s" % kind, dim="spatial_1D", conf="shelf", S=None, dt=None, error=e)
             rep.violation("history-crash %s" % type(e).__name__, "history %s raises %r" % (kind, e), dict(history=kind))
         recs.append(rec)
+    # corpus: a 2D VISF run whose short, weak vacuum pulse supercools the top WITHOUT nucleating it (the hazard integral grows to ~0.5); the top
+    # then warms up again and for minutes no point is supercooled; the vial nucleates later from the bottom.  What was accumulated still counts.
+    try:
+        progP = dict(start=20, end=-60, rate=3.0 / 60, holds=[], t_tot=5200.0, dt=1.0)
+        exP = {"VISF": {"p_vac": 200, "t_vac_start": 1 / 60, "t_vac_duration": 1 / 60}, "kinetics": {"a": 20.7}}
+        SP = sr.make(dim="spatial_2D", conf="VISF", height=0.04, diameter=0.08, K=400, prog=progP, extra=exP)
+        dtP, _ = sr.step_info(SP)
+        recP = dict(label="spatial_2D/VISF h=0.04 d=0.08 K=400 vacuum pulse 60-120 s at 200 Pa, a=20.7 (hazard accumulated, then nothing supercooled, then nucleation)",
+                    dim="spatial_2D", conf="VISF", S=SP, dt=dtP, prog=progP, error=None)
+        sr.run(SP)
+    except Exception as e:
+        recP["error"] = e
+    recs.append(recP)
+    # a LONG 1D run (more than 10000 steps: the cooling stage is saved with a stride): the nucleation step and field are those of an independent
+    # numpy re-simulation that accumulates the hazard on every step
+    try:
+        progL = dict(start=10, end=-50, rate=0.5 / 60, holds=[], t_tot=22000.0, dt=1.0)
+        SL = sr.make(dim="spatial_1D", conf="shelf", height=0.05, diameter=0.05, K=200, prog=progL)
+        dtL, nL = sr.step_info(SL)
+        sr.run(SL)
+        iL, TL, _ = sr.resim_cooling_1d(SL, dtL)
+        resL = SL.results.iloc[0]
+        labL = "spatial_1D/shelf h=0.05 K=200 0.5 K/min t_tot=22000 s (%d steps, saved with a stride)" % nL
+        rep.case(labL, nontrivial=True); rep.count("long-run-resimulated")
+        rep.coverage["long_run_steps"] = int(nL)
+        if iL is None or abs(float(resL["t_nuc"]) * 60 - dtL * iL) > 0.5 * dtL:
+            rep.violation("not-first-crossing long run", "%s: nucleation reported at t=%r s (step %.1f) but the hazard integral accumulated on every step first crosses F at step %r"
+                          % (labL, float(resL["t_nuc"]) * 60, float(resL["t_nuc"]) * 60 / dtL, iL), dict(run=labL, first_crossing=iL))
+        else:
+            for kname, v in (("T_nuc_min", TL.min()), ("T_nuc_mean", TL.mean()), ("T_nuc_max", TL.max())):
+                if abs(float(resL[kname]) + 273.15 - v) > 1e-6:
+                    rep.violation("stat-%s long run" % kname, "%s: reported %s=%r, the field at the first crossing has %r" % (labL, kname, float(resL[kname]), v - 273.15), dict(run=labL)); break
+    except Exception as e:
+        rep.violation("long-run-crash %s" % type(e).__name__, "long 1D run / re-simulation raises %r" % e, dict(error=repr(e)))
     cases, labs, certs = [], [], []
     for rec in recs:
         if rec["error"] is not None:
@@ -120,6 +154,9 @@ def check(rep, tier):
             fz = 2 * np.pi * si.simps(r * fieldN * Jn, r)
             kin = (1 / Kv[ie]) * si.simps(fz, z) if Kv[ie] > 0 else 273.15
         E = np.cumsum(Kv * dt)
+        gap = int(((E > 0) & (Kv == 0)).sum())
+        if gap:
+            rep.count("steps with nothing supercooled after the hazard integral had become positive", gap)
         Fn = 1 - np.exp(-E)
         first = np.nonzero(Fn > F)[0]
         if not len(first) or first[0] != ie:
